@@ -57,9 +57,8 @@ func c15Configs(thorough bool) []lockCfg {
 	cs := []lockCfg{
 		{Name: "v0=3,v1=2", Powers: []uint64{3, 2}, MaxValidators: 2, Tk2Weight: 1, Tk2Threshold: 0, Candidates: 3},
 	}
-	if thorough {
-		cs = append(cs, lockCfg{Name: "v0=3-alone-max1", Powers: []uint64{3, 3}, MaxValidators: 1, Tk2Weight: 0, Tk2Threshold: 1, Candidates: 3})
-	}
+	// a zero-weight token that still has a threshold: dropping below it is exiting all the same
+	cs = append(cs, lockCfg{Name: "v0=3-alone-max1-tk2-weightless-with-threshold", Powers: []uint64{3, 3}, MaxValidators: 1, Tk2Weight: 0, Tk2Threshold: 1, Candidates: 3})
 	return cs
 }
 
